@@ -198,6 +198,8 @@ class Interp:
         self.call_log: list[str] = []
         self.old_env: Optional[dict] = None
         self.unbound_bases: set = set()
+        self.stubs: dict = {}
+        self.inline_keys: set = set()
         self.inlined: set[str] = set()
         self.used_contracts: set[str] = set()
         self.used_models: set[str] = set()
@@ -212,6 +214,9 @@ class Interp:
 
     def wrap_global(self, v, name=""):
         """Turns a native global into an interpreter value."""
+        if isinstance(v, types.FunctionType) and getattr(v, "__module__", "") == "zorg.shared.common" and v.__name__ == "zprint":
+            self.used_models.add("A-LOG: zprint prints a progress banner only (effect-free for the properties)")
+            return _NULLFN
         if isinstance(v, types.FunctionType):
             # unwrap decorators that keep __wrapped__
             f = inspect.unwrap(v)
@@ -225,6 +230,9 @@ class Interp:
             return NativeRef(v)
         if type(v).__name__ == "Logger" or type(v).__module__.startswith("logrus"):
             return NullLogger()
+        if isinstance(v, types.FunctionType) and v.__module__ == "zorg.shared.common" and v.__name__ == "zprint":
+            self.used_models.add("A-LOG: zprint prints a progress banner only (effect-free for the properties)")
+            return _NULLFN
         if callable(v) and not isinstance(v, (enum.Enum,)):
             return NativeRef(v)
         return v
@@ -271,6 +279,13 @@ class Interp:
 
     def call_ifunc(self, f: IFunc, args, kwargs, *, force_inline=False):
         key = f.key
+        if not force_inline and key in self.stubs:
+            # per-contract stub of a dependency (an assumed contract written as a model; listed in the evidence)
+            st = self.stubs[key]
+            self.used_models.add("STUB " + key.split(":")[-1] + ": " + " ".join((st.__doc__ or "assumed").split()))
+            return st(self, args, kwargs)
+        if key in self.inline_keys:
+            force_inline = True
         if not force_inline and key in self.contracts and not f.is_spec:
             c = self.contracts[key]
             if c.get("opaque_call", True):
@@ -1512,7 +1527,7 @@ class Interp:
 
 
 def _ghost_copy(g: dict) -> dict:
-    return {k: (list(v) if isinstance(v, list) else v) for k, v in g.items()}
+    return {k: (list(v) if isinstance(v, list) else dict(v) if isinstance(v, dict) else v) for k, v in g.items()}
 
 
 class _NullFn:
